@@ -7757,7 +7757,23 @@ fn eval_struct_value(
             .pop_value()
             .expect("Value stack should have sufficient items for the struct literal");
 
-        let Some(field_info) = expected_fields_by_name.remove(&field_sym.name) else {
+        // A field given twice is only a warning for `garden check`,
+        // so it must not fail here: the later value replaces the
+        // earlier one.
+        let repeated_field = fields
+            .iter()
+            .any(|(name, _): &(SymbolName, Value)| *name == field_sym.name);
+        let field_info = if repeated_field {
+            struct_info
+                .fields
+                .iter()
+                .find(|field_info| field_info.sym.name == field_sym.name)
+                .cloned()
+        } else {
+            expected_fields_by_name.remove(&field_sym.name)
+        };
+
+        let Some(field_info) = field_info else {
             // TODO: this would be a good candidate for additional
             // positions, in this case the definition site of the
             // struct.
@@ -7797,7 +7813,15 @@ fn eval_struct_value(
             ));
         }
 
-        fields.push((field_sym.name.clone(), field_value));
+        if repeated_field {
+            for (name, value) in fields.iter_mut() {
+                if *name == field_sym.name {
+                    *value = field_value.clone();
+                }
+            }
+        } else {
+            fields.push((field_sym.name.clone(), field_value));
+        }
     }
 
     if !expected_fields_by_name.is_empty() {
